@@ -82,8 +82,12 @@ func hostileAttr(r *prng) (uint16, []byte) {
 func (x *Exec) hostileBytes(c *Client, st *Step) (data []byte, class string) { //nolint:cyclop,gocyclo
 	r := &prng{s: st.Seed*7919 + uint64(st.N)}
 	ui := c.User
-	mode := st.N % 12
+	mode := st.N % 13
 	switch mode {
+	case 12:
+		raw, _, _ := x.signed(c, ui, x.baseRequest(c, r.n(7), r), "nonce-alnum-len", r.next())
+
+		return raw, "nonce-length-sweep"
 	case 0:
 		l := []int{0, 1, 2, 3, 4, 8, 19, 20, 21, 28, 64, 200, 1500, 2048}[r.n(14)]
 		if r.n(3) == 0 {
